@@ -22,7 +22,8 @@ RTOL = F(1, 10 ** 9)
 
 def shapes(tier):
     out = [(0, (0, 0, 0)), (0, (0, 1, 0)), (1, (0, 0, 0)), (2, (0, 0, 0)), (3, (0, 0, 0)), (1, (0, 1, 0)), (2, (1, 0, 0)), (2, (0, 2, 0)),
-           (2, (0, 3, 0)), (1, (2, 0, 0)), (3, (1, 0, 1)), (1, (1, 1, 0))]
+           (2, (0, 3, 0)), (1, (2, 0, 0)), (3, (1, 0, 1)), (1, (1, 1, 0)),
+           (1, (2, 2, 0)), (2, (3, 0, 3)), (0, (1, 1, 0)), (1, (2, 1, 2))]       # two jumps, jump + kink + jump
     if tier != "quick":
         out += [(3, (0, 2, 0)), (3, (0, 4, 0)), (4, (0, 0, 0)), (4, (0, 1, 0)), (2, (1, 2, 1)), (3, (3, 0, 1))]
     return out
